@@ -21,7 +21,7 @@ fn ground_terms(sig: &Sig, depth: usize, cap: usize) -> Vec<Pat> {
     for _ in 0..depth {
         let mut next = cur.clone();
         for (c, (_, ar)) in sig.ctors.iter().enumerate() {
-            if *ar == 0 { continue; }
+            if *ar == 0 || !sig.kinds[c].iter().all(|k| *k) { continue; }
             let mut idx = vec![0usize; *ar];
             'outer: loop {
                 let t = Pat::App(c, idx.iter().map(|i| cur[*i].clone()).collect());
